@@ -24,8 +24,12 @@ class Expression:
 
     def compile(self, out, flags):
         if not out.has_available_blocks(self.num_blocks):
+            # Move the expression into a helper function. The helper may have to
+            # yield to the driver (to call a rule), so it is a generator that
+            # returns its result.
             func, params = self.functionalize(out, flags, is_generator=False)
-            out += (STATUS, RESULT, POS) << func(*params)
+            call = Code('(yield from ', func(*params), ')')
+            out += (STATUS, RESULT, POS) << call
             return
 
         if self.is_tagged:
@@ -66,6 +70,10 @@ class Expression:
 
         with out.global_section():
             with out.DEF(name, params):
+                if not is_generator:
+                    # Make sure that the helper is a generator, even when its
+                    # body has no yield expression of its own.
+                    out += Code('yield from ()')
                 self.compile(out, flags)
                 method = out.YIELD if is_generator else out.RETURN
                 method((STATUS, RESULT, POS))
